@@ -10,7 +10,7 @@ namespace LK.IL
 
 variable {ι : Type} [DecidableEq ι]
 
-inductive Err | runtime | key | index | type | value deriving DecidableEq, Repr
+inductive Err | runtime | key | index | type | value | attribute deriving DecidableEq, Repr
 inductive Variant | asIs | repaired deriving DecidableEq, Repr
 
 abbrev Vocab (ι : Type) := List ι
@@ -26,6 +26,7 @@ structure IL (ι φ : Type) where
   vocab : Option (Vocab ι)
   fields : List (String × List φ)
   ordered : Bool
+  ranks : Option (List Nat) := none        -- the `_ranks` cache (filled by `ranks()`, copied by the copy constructor)
 
 /-- `ItemList.ids()`: stored identifiers, or numbers mapped through the vocabulary (negative or out of range ⇒ `IndexError`) -/
 def idsOf {φ} (il : IL ι φ) : Except Err (List ι) :=
@@ -85,7 +86,8 @@ def getitem {φ} (il : IL ι φ) (sel : List Nat) : IL ι φ :=
     nums := il.nums.map (fun n => pick n sel),
     vocab := il.vocab,
     fields := il.fields.map (fun nf => (nf.1, pick nf.2 sel)),
-    ordered := il.ordered }
+    ordered := il.ordered,
+    ranks := none }
 
 /-- `ItemList(source, vocabulary=v2)` -/
 def withVocab {φ} (vt : Variant) (src : IL ι φ) (v2 : Vocab ι) : Except Err (IL ι φ) :=
@@ -94,13 +96,78 @@ def withVocab {φ} (vt : Variant) (src : IL ι φ) (v2 : Vocab ι) : Except Err 
   | .repaired =>
     if src.vocab = some v2 then .ok src
     else
+      match src.vocab, src.nums with
+      | some _, some _ =>
+        -- numbers that index another vocabulary are stale: keep the identifiers they stood for, drop the numbers
+        match idsOf src with
+        | .ok i => .ok { src with vocab := some v2, ids := some i, nums := none }
+        | .error e => .error e
+      | _, _ => .ok { src with vocab := some v2 }      -- no vocabulary before, or no numbers: nothing can be stale
+
+/-! ### ranks and the copy constructor `ItemList(source, item_ids=…, item_nums=…, vocabulary=…, field=…)`
+
+The constructor starts from a copy of the source's `__dict__` (caches included) and then overrides.
+`Variant.asIs` is the constructor as it stands:
+* a replaced identifier / number array of another length keeps the source's cached ranks;
+* `item_ids` **and** `item_nums` given together: the numbers branch deletes the identifiers whenever the *source* had some —
+  including the ones just supplied;
+* `item_ids` together with a different `vocabulary`, source numbers cached: the numbers are deleted twice (`AttributeError`).
+`Variant.repaired` keeps what the caller supplied and drops only what is stale. -/
+
+/-- `ItemList.ranks()` for an ordered list (fills the cache) -/
+def ranksOf {φ} (il : IL ι φ) : Option (List Nat) :=
+  if il.ordered then some (il.ranks.getD ((List.range il.len).map (· + 1))) else none
+
+def cacheRanks {φ} (il : IL ι φ) : IL ι φ :=
+  if il.ordered then { il with ranks := some (il.ranks.getD ((List.range il.len).map (· + 1))) } else il
+
+def fieldsFit {φ} (fields : List (String × List φ)) (n : Nat) : Bool := fields.all (fun nf => nf.2.length == n)
+
+def keepRanks {φ} (vt : Variant) (src : IL ι φ) (n : Nat) : Option (List Nat) :=
+  match vt with
+  | .asIs => src.ranks
+  | .repaired => if n = src.len then src.ranks else none
+
+/-- `ItemList(src, item_ids=x)` -/
+def copyIds {φ} (vt : Variant) (src : IL ι φ) (x : List ι) : Except Err (IL ι φ) :=
+  if fieldsFit src.fields x.length then
+    .ok { src with ids := some x, nums := none, len := x.length, ranks := keepRanks vt src x.length }
+  else .error .type
+
+/-- `ItemList(src, item_nums=y)`: the new numbers are checked against the length copied from the source -/
+def copyNums {φ} (vt : Variant) (src : IL ι φ) (y : List Int) : Except Err (IL ι φ) :=
+  if y.length = src.len then .ok { src with nums := some y, ids := none, ranks := keepRanks vt src y.length }
+  else .error .type
+
+/-- `ItemList(src, item_ids=x, item_nums=y)` -/
+def copyBoth {φ} (vt : Variant) (src : IL ι φ) (x : List ι) (y : List Int) : Except Err (IL ι φ) :=
+  if y.length ≠ x.length then .error .type
+  else if !fieldsFit src.fields x.length then .error .type
+  else
+    let keepIds : Bool := match vt with | .asIs => src.ids.isNone | .repaired => true
+    .ok { src with ids := if keepIds then some x else none, nums := some y, len := x.length, ranks := keepRanks vt src x.length }
+
+/-- `ItemList(src, item_ids=x, vocabulary=v2)` -/
+def copyIdsVocab {φ} (vt : Variant) (src : IL ι φ) (x : List ι) (v2 : Vocab ι) : Except Err (IL ι φ) :=
+  match vt with
+  | .asIs =>
+    if src.vocab.isSome ∧ src.vocab ≠ some v2 ∧ src.nums.isSome then
+      -- the vocabulary branch already dropped the numbers (after resolving the source's identifiers); the identifier branch drops them again
       match idsOf src with
-      | .ok i => .ok { src with vocab := some v2, ids := some i, nums := none }
-      | .error e =>
-        -- a list that only carries numbers and no vocabulary keeps its numbers
-        match src.vocab with
-        | none => .ok { src with vocab := some v2 }
-        | some _ => .error e
+      | .ok _ => .error .attribute
+      | .error e => .error e
+    else if fieldsFit src.fields x.length then
+      .ok { src with ids := some x, nums := none, vocab := some v2, len := x.length, ranks := src.ranks }
+    else .error .type
+  | .repaired =>
+    if fieldsFit src.fields x.length then
+      .ok { src with ids := some x, nums := none, vocab := some v2, len := x.length, ranks := keepRanks .repaired src x.length }
+    else .error .type
+
+/-- `ItemList(src, name=False)` / `ItemList(src, name=values)` -/
+def dropField {φ} (src : IL ι φ) (name : String) : IL ι φ := { src with fields := src.fields.filter (·.1 != name) }
+def setField {φ} (src : IL ι φ) (name : String) (vals : List φ) : Except Err (IL ι φ) :=
+  if vals.length = src.len then .ok { src with fields := (src.fields.filter (·.1 != name)) ++ [(name, vals)] } else .error .type
 
 /-- alignment invariant -/
 def Aligned {φ} (il : IL ι φ) : Prop :=
